@@ -110,9 +110,17 @@ impl<Aux> Vm<'_, Aux> {
             OwnedValue::Table(o) => {
                 let mut res = self.init_table()?;
                 let table = res.deref_mut().as_table_mut().unwrap();
+                let guard = |v: Value| match v {
+                    Value::Object(o) => Some(ObjectGcGuard::new(o)),
+                    _ => None,
+                };
                 for OwnedEntry { key, value } in o.iter() {
+                    // the new objects are not reachable from the table yet: keep them alive
+                    // while the next allocation may collect
                     let key = self.insert_value(key)?;
+                    let _key_guard = guard(key);
                     let value = self.insert_value(value)?;
+                    let _value_guard = guard(value);
                     table.insert(key, value)?;
                 }
                 Value::Object(res.0)
